@@ -315,7 +315,7 @@ def value_args_validate(fn_args, args, error_return_value=None):
             arg_lte = fn_arg.get('lte')
             arg_gt = fn_arg.get('gt')
             arg_gte = fn_arg.get('gte')
-            if ((fn_arg.get('integer') and int(arg_value) != arg_value) or
+            if ((fn_arg.get('integer') and (not math.isfinite(arg_value) or int(arg_value) != arg_value)) or
                 (arg_lt is not None and not (arg_value < arg_lt)) or
                 (arg_lte is not None and not (arg_value <= arg_lte)) or
                 (arg_gt is not None and not (arg_value > arg_gt)) or
@@ -348,9 +348,17 @@ class ValueArgsError(Exception):
         if arg_name is None:
             message = f'Too many arguments ({value_json(arg_value)})'
         else:
-            message = f'Invalid "{arg_name}" argument value, {value_json(arg_value)}'
+            message = f'Invalid "{arg_name}" argument value, {_value_args_error_json(arg_value)}'
         super().__init__(message)
         self.return_value = return_value
+
+
+# Helper function to describe an invalid argument value - non-finite numbers and circular values have no JSON
+def _value_args_error_json(value):
+    try:
+        return value_json(value)
+    except (ValueError, RecursionError):
+        return f'<{value_type(value)}>'
 
 
 def value_args_model(fn_args):
